@@ -197,9 +197,10 @@ func dominatingFactsD(b *ssa.BasicBlock, depth int) []EdgeFact {
 			if src, xc, xv := phiBoolSourceX(fact.Cond, fact.Val, d); src != nil {
 				// across a back edge (d is a loop header) the values defined in d were
 				// redefined on re-entry: conditions over them describe the previous instance
-				back := d.Dominates(src)
+				pb := flagBlock(fact.Cond)
+				back := pb.Dominates(src)
 				add := func(f EdgeFact) {
-					if back && dependsOnBlock(f.Cond, d, 8) {
+					if back && dependsOnBlock(f.Cond, pb, 8) {
 						return
 					}
 					out = append(out, f)
@@ -208,7 +209,7 @@ func dominatingFactsD(b *ssa.BasicBlock, depth int) []EdgeFact {
 					add(EdgeFact{xc, xv, src})
 				}
 				if sif, ok := lastInstr(src).(*ssa.If); ok && len(src.Succs) == 2 && src.Succs[0] != src.Succs[1] {
-					add(EdgeFact{sif.Cond, src.Succs[0] == d, src})
+					add(EdgeFact{sif.Cond, src.Succs[0] == pb, src})
 				}
 				for _, f := range dominatingFactsD(src, depth+1) {
 					add(f)
@@ -320,6 +321,17 @@ func dependsOnBlock(v ssa.Value, d *ssa.BasicBlock, depth int) bool {
 	return false
 }
 
+// flagBlock: the block in which the boolean phi tested by cond is defined (nil if cond is not such a phi).
+func flagBlock(cond ssa.Value) *ssa.BasicBlock {
+	if u, ok := cond.(*ssa.UnOp); ok && u.Op == token.NOT {
+		cond = u.X
+	}
+	if phi, ok := cond.(*ssa.Phi); ok {
+		return phi.Block()
+	}
+	return nil
+}
+
 // phiBoolSource: cond is a phi in block d whose value val can only have been
 // supplied by one predecessor; returns that predecessor.
 func phiBoolSource(cond ssa.Value, val bool, d *ssa.BasicBlock) *ssa.BasicBlock {
@@ -338,9 +350,12 @@ func phiBoolSourceX(cond ssa.Value, val bool, d *ssa.BasicBlock) (*ssa.BasicBloc
 		cond, val = u.X, !val
 	}
 	phi, ok := cond.(*ssa.Phi)
-	if !ok || phi.Block() != d {
+	if !ok || (phi.Block() != d && !phi.Block().Dominates(d)) {
 		return nil, nil, false
 	}
+	// the flag may be tested again later: its value was fixed when control last passed
+	// through the phi's block, which dominates d
+	d = phi.Block()
 	var srcC, srcN *ssa.BasicBlock
 	var nv ssa.Value
 	nEq, nNon := 0, 0
@@ -646,4 +661,85 @@ func eqFact(f EdgeFact) (x, y ssa.Value, equal bool, ok bool) {
 		return nil, nil, false, false
 	}
 	return bo.X, bo.Y, (bo.Op == token.EQL) == f.Val, true
+}
+
+// vReturn is a return of a function seen from one incoming path: when the
+// returned values are phis of the (otherwise empty) return block - the shape
+// produced by `r := ...; return r` after several assignments, or by an inlined
+// helper - every predecessor edge is a separate exit with its own results and
+// its own dominating facts.
+type vReturn struct {
+	R       *ssa.Return
+	Results []ssa.Value
+	At      *ssa.BasicBlock // block whose end this exit is taken from (the return block itself if not split)
+	Edge    *EdgeFact       // the branch fact of the edge At -> return block, if At ends in an If
+}
+
+func (v vReturn) Facts() []EdgeFact {
+	fs := dominatingFacts(v.At)
+	if v.Edge != nil {
+		fs = append([]EdgeFact{*v.Edge}, fs...)
+	}
+	return fs
+}
+
+// DominatedBy: instruction a is executed on every path to this exit.
+func (v vReturn) DominatedBy(a ssa.Instruction) bool {
+	if v.At == v.R.Block() {
+		return instrDominates(a, v.R)
+	}
+	return a.Block() == v.At || a.Block().Dominates(v.At)
+}
+
+func virtualReturns(fn *ssa.Function) []vReturn {
+	var out []vReturn
+	for _, r := range returnsOf(fn) {
+		out = append(out, splitReturn(r, r.Block(), r.Results, 0)...)
+	}
+	return out
+}
+
+func splitReturn(r *ssa.Return, b *ssa.BasicBlock, results []ssa.Value, depth int) []vReturn {
+	// the block consists of phis (and debug refs) followed by the terminator only
+	onlyPhis := true
+	hasPhiResult := false
+	for _, ins := range b.Instrs[:len(b.Instrs)-1] {
+		switch ins.(type) {
+		case *ssa.Phi, *ssa.DebugRef:
+		default:
+			onlyPhis = false
+		}
+	}
+	for _, v := range results {
+		if phi, ok := v.(*ssa.Phi); ok && phi.Block() == b {
+			hasPhiResult = true
+		}
+	}
+	if !onlyPhis || !hasPhiResult || len(b.Preds) < 2 || depth > 3 {
+		return []vReturn{{R: r, Results: results, At: b}}
+	}
+	var out []vReturn
+	for i, p := range b.Preds {
+		res := make([]ssa.Value, len(results))
+		for k, v := range results {
+			res[k] = v
+			if phi, ok := v.(*ssa.Phi); ok && phi.Block() == b {
+				res[k] = phi.Edges[i]
+			}
+		}
+		if _, isJump := lastInstr(p).(*ssa.Jump); isJump && len(p.Succs) == 1 {
+			// the predecessor may itself be a pure merge block
+			sub := splitReturn(r, p, res, depth+1)
+			if len(sub) > 1 {
+				out = append(out, sub...)
+				continue
+			}
+		}
+		vr := vReturn{R: r, Results: res, At: p}
+		if ifi, ok := lastInstr(p).(*ssa.If); ok && len(p.Succs) == 2 && p.Succs[0] != p.Succs[1] {
+			vr.Edge = &EdgeFact{ifi.Cond, p.Succs[0] == b, p}
+		}
+		out = append(out, vr)
+	}
+	return out
 }
